@@ -135,6 +135,10 @@ pub struct FilterCase {
     pub xpub: bool,
     pub subscribers: usize,
     pub steps: Vec<Step>,
+    /// what the subscribers announce as Identity: 0 nothing, 1 an empty one (libzmq's
+    /// default; each must still get a registration of its own), 2 distinct ones of 1 / 255 bytes
+    #[serde(default)]
+    pub idents: u8,
 }
 
 /// quiescence: every subscription message sent so far has been processed
@@ -158,6 +162,9 @@ async fn process_subscriptions(sim: &mut Sim, s: usize, xpub: bool, links: &[Lin
 pub fn filter_outcome(c: &FilterCase) -> Outcome {
     let mut o = Outcome::new(hash_of(c));
     // non-trivial: duplicate, overlap (a & ab), unsubscribe, or topic length >= first frame
+    if c.idents == 1 && c.subscribers >= 2 {
+        o.class("several-subscribers-announce-empty-identity");
+    }
     let toks: Vec<&Tok> = c.steps.iter().filter_map(|s| if let Step::Peer(_, t) = s { Some(t) } else { None }).collect();
     let has_unsub = toks.iter().any(|t| matches!(t, Tok::Unsub(_)));
     let mut dup = false;
@@ -197,8 +204,13 @@ pub fn filter_outcome(c: &FilterCase) -> Outcome {
             let s = sim.socket(if c.xpub { Kind::XPub } else { Kind::Pub }, None);
             let mut links = vec![];
             let mut ids = vec![];
-            for _ in 0..c.subscribers {
-                match simx::attach_raw(&mut sim, s, None).await {
+            for j in 0..c.subscribers {
+                let ident: Option<Vec<u8>> = match c.idents {
+                    0 => None,
+                    1 => Some(vec![]),
+                    _ => Some(vec![b'a' + j as u8; if j % 2 == 0 { 1 } else { 255 }]),
+                };
+                match simx::attach_raw(&mut sim, s, ident.as_deref()).await {
                     Ok((l, id)) => {
                         links.push(l);
                         ids.push(id);
@@ -346,7 +358,7 @@ fn exhaustive_histories(xpub: bool, max_len: usize) -> Vec<FilterCase> {
             for k in 0..np {
                 steps.push(Step::Publish(k));
             }
-            v.push(FilterCase { xpub, subscribers: 1, steps });
+            v.push(FilterCase { xpub, subscribers: 1, steps, idents: 0 });
         }
     }
     v
@@ -379,7 +391,8 @@ fn gen_filter(s: &mut Src<'_>) -> FilterCase {
         })
         .chain((0..np).map(Step::Publish))
         .collect();
-    FilterCase { xpub, subscribers, steps }
+    let idents = s.weighted(&[2, 1, 1]) as u8;
+    FilterCase { xpub, subscribers, steps, idents }
 }
 
 pub fn run(ctx: &Ctx) -> (Report, PropertyMeta) {
@@ -411,6 +424,7 @@ pub fn run(ctx: &Ctx) -> (Report, PropertyMeta) {
     health(&mut report, "overlapping-prefixes", total, 100);
     health(&mut report, "unsubscribe", total, 300);
     health(&mut report, "garbage-subscription-message", total, 100);
+    health_abs(&mut report, "several-subscribers-announce-empty-identity", 100);
 
     let meta = PropertyMeta {
         level: "exploration",
